@@ -43,6 +43,7 @@ from .stacked_scopes import (
     annotate_with_constraint,
 )
 from .value import (
+    safe_repr,
     KNOWN_MUTABLE_TYPES,
     NO_RETURN_VALUE,
     UNINITIALIZED_VALUE,
@@ -573,14 +574,14 @@ def _typeddict_setitem(
     if key.val not in self_value.items:
         if self_value.extra_keys_readonly:
             ctx.show_error(
-                f"Cannot set unknown key {key.val!r} in closed TypedDict {self_value}",
+                f"Cannot set unknown key {safe_repr(key.val)} in closed TypedDict {self_value}",
                 ErrorCode.readonly_typeddict,
                 arg="k",
             )
             return
         if self_value.extra_keys is None:
             ctx.show_error(
-                f"Key {key.val!r} does not exist in {self_value}",
+                f"Key {safe_repr(key.val)} does not exist in {self_value}",
                 ErrorCode.invalid_typeddict_key,
                 arg="k",
             )
@@ -591,7 +592,7 @@ def _typeddict_setitem(
         entry = self_value.items[key.val]
         if entry.readonly:
             ctx.show_error(
-                f"Cannot set readonly key {key.val!r} in TypedDict {self_value}",
+                f"Cannot set readonly key {safe_repr(key.val)} in TypedDict {self_value}",
                 ErrorCode.readonly_typeddict,
                 arg="k",
             )
@@ -600,7 +601,7 @@ def _typeddict_setitem(
     tv_map = expected_type.can_assign(value, ctx.visitor)
     if isinstance(tv_map, CanAssignError):
         ctx.show_error(
-            f"Value for key {key.val!r} must be {expected_type}, not {value}",
+            f"Value for key {safe_repr(key.val)} must be {expected_type}, not {value}",
             ErrorCode.incompatible_argument,
             arg="v",
             detail=str(tv_map),
@@ -670,7 +671,7 @@ def _dict_getitem_impl(ctx: CallContext) -> ImplReturn:
                 return self_value.extra_keys
             if isinstance(key, KnownValue):
                 ctx.show_error(
-                    f"Unknown TypedDict key {key.val!r}",
+                    f"Unknown TypedDict key {safe_repr(key.val)}",
                     ErrorCode.invalid_typeddict_key,
                     arg="k",
                 )
@@ -751,7 +752,7 @@ def _dict_get_impl(ctx: CallContext) -> ImplReturn:
                 return self_value.extra_keys | default
             if isinstance(key, KnownValue):
                 ctx.show_error(
-                    f"Unknown TypedDict key {key.val!r}",
+                    f"Unknown TypedDict key {safe_repr(key.val)}",
                     ErrorCode.invalid_typeddict_key,
                     arg="k",
                 )
